@@ -400,7 +400,8 @@ pub fn run(rep: &Report) {
     // path-spelling family: member names that spell another node's path ("a.a" next to a:{a:..}, "a[0]" next to a:[..])
     {
         let pool = ["a", "a.a", "a[0]", "b"];
-        let nt = super::common::named_trees(3, 3, &pool);
+        let mut nt = super::common::named_trees(3, 3, &pool);
+        nt.extend(super::common::path_collision_trees());
         let mut l = Local::default();
         for u in &nt {
             for strat in [Strat::Top, Strat::All] {
